@@ -56,7 +56,7 @@ Proof.
   intros file inp. unfold parse_operation_document.
   pose proof (parse_pairs_never_out_of_fuel R_ExecutableDocument inp) as H.
   destruct (parse_pairs R_ExecutableDocument inp) as [ps| |]; [|discriminate|contradiction].
-  unfold of_bres. destruct (build_operation_document inp file ps); discriminate.
+  unfold after_validation, of_bres. destruct (validate_string_values inp ps); [destruct (build_operation_document inp file ps)| |]; discriminate.
 Qed.
 
 Theorem parse_type_system_document_never_fuel : forall file inp, parse_type_system_document file inp <> PFuel.
@@ -64,5 +64,5 @@ Proof.
   intros file inp. unfold parse_type_system_document.
   pose proof (parse_pairs_never_out_of_fuel R_TypeSystemExtensionDocument inp) as H.
   destruct (parse_pairs R_TypeSystemExtensionDocument inp) as [ps| |]; [|discriminate|contradiction].
-  unfold of_bres. destruct (build_type_system_document inp file ps); discriminate.
+  unfold after_validation, of_bres. destruct (validate_string_values inp ps); [destruct (build_type_system_document inp file ps)| |]; discriminate.
 Qed.
